@@ -330,6 +330,15 @@ func gen(h *lp.H, do func(string) string) {
 		h.Distinct(fmt.Sprintf("pingids/%d", n))
 	}
 
+	// ---- C1. many requests in flight, answered back to back in reverse order
+	for c, n := range []int{12, 64} {
+		h.Case(fmt.Sprintf("burst %d", c))
+		if out := do(fmt.Sprintf("burst %d", n)); out != fmt.Sprintf("burst ok %d", n) {
+			h.Violate(fmt.Sprintf("%d requests outstanding at once, all answered back to back: %s", n, out))
+		}
+		h.Distinct(fmt.Sprintf("burst/%d", n))
+	}
+
 	// ---- C. a wrong-typed response to the keepalive ping must not kill the process
 	if os.Getenv("VERIF_SKIP_KEEPALIVE_CASE") != "" {
 		return
